@@ -76,6 +76,8 @@ struct Pipe {
     wwaker: Option<Waker>,
     written: u64,
     /// connection reset once `written` reaches this
+    /// flip one bit of the byte at this stream offset (corruption in flight)
+    flip_at: Option<u64>,
     reset_at: Option<u64>,
     /// half-close (EOF to reader, silently drop later writes) once `written` reaches this
     eof_at: Option<u64>,
@@ -83,7 +85,7 @@ struct Pipe {
 
 impl Pipe {
     fn new() -> Pipe {
-        Pipe { segs: VecDeque::new(), in_flight: 0, write_closed: false, reader_gone: false, rwaker: None, wwaker: None, written: 0, reset_at: None, eof_at: None }
+        Pipe { segs: VecDeque::new(), in_flight: 0, write_closed: false, reader_gone: false, rwaker: None, wwaker: None, written: 0, flip_at: None, reset_at: None, eof_at: None }
     }
     fn wake_all(&mut self) {
         if let Some(w) = self.rwaker.take() {
@@ -144,6 +146,8 @@ pub struct ByteFault {
     pub at: u64,
     /// true: reset, false: half-close (EOF)
     pub reset: bool,
+    /// corrupt the byte at `at` instead of cutting the stream there
+    pub flip: bool,
 }
 
 struct LState {
@@ -497,7 +501,16 @@ impl AsyncWrite for SimStream {
                     at = *last;
                 }
             }
-            p.segs.push_back((at, buf[..n].to_vec()));
+            let mut data = buf[..n].to_vec();
+            if let Some(f) = p.flip_at {
+                if f >= p.written && f < p.written + n as u64 {
+                    data[(f - p.written) as usize] ^= 0x10;
+                    p.flip_at = None;
+                    this.handle.fault("byte_flip");
+                    this.handle.event(format!("net: byte at offset {f} of conn{id} corrupted in flight"));
+                }
+            }
+            p.segs.push_back((at, data));
             p.in_flight += n;
             if let Some(w) = p.rwaker.take() {
                 w.wake();
@@ -663,7 +676,9 @@ impl NetBackend for SimNet {
                     let mut conn = Conn { id, client: from, server: remote, pipes: [Pipe::new(), Pipe::new()], reset: false, stalled: false, blackholed: false, dead_since_ns: None, created_ns: crate::seams::now_ns(), open_ends: 2 };
                     if let Some(bf) = st.byte_faults.get(&id).cloned() {
                         let p = &mut conn.pipes[bf.dir % 2];
-                        if bf.reset {
+                        if bf.flip {
+                            p.flip_at = Some(bf.at);
+                        } else if bf.reset {
                             p.reset_at = Some(bf.at);
                         } else {
                             p.eof_at = Some(bf.at);
